@@ -225,6 +225,13 @@ func (s *Stream) decode(r io.Reader, parsedTypes TypeMap, p2p bool) (TypeMap,
 			return nil, ErrRecordTooLarge
 		}
 
+		// Without the p2p cap the length is still handed on as a
+		// signed byte count below: a length that doesn't fit can't be
+		// the length of a record of any stream we could be reading.
+		if length > math.MaxInt64 {
+			return nil, ErrRecordTooLarge
+		}
+
 		// Search the records known to the stream for this type. We'll
 		// begin the search and recordIdx and walk forward until we find
 		// it or the next record's type is larger.
@@ -263,7 +270,14 @@ func (s *Stream) decode(r io.Reader, parsedTypes TypeMap, p2p bool) (TypeMap,
 			var b *bytes.Buffer
 			writer := io.Discard
 			if parsedTypes != nil {
-				b = bytes.NewBuffer(make([]byte, 0, length))
+				// The length is not trusted for sizing the
+				// buffer up front, it grows with the bytes
+				// that are actually there to be read.
+				bufCap := length
+				if bufCap > MaxRecordSize {
+					bufCap = MaxRecordSize
+				}
+				b = bytes.NewBuffer(make([]byte, 0, bufCap))
 				writer = b
 			}
 
